@@ -477,6 +477,10 @@ class Interp:
         if k == "Construct" and cands:
             n = len(e["args"])
             c = [f for f in cands if len(f["params"]) == n]
+            want = "copy_ctor" if e.get("copy") else ("move_ctor" if e.get("move") else None)
+            c2 = [f for f in c if (f.get("special") == want if want else f.get("special") not in ("copy_ctor", "move_ctor"))]
+            if c2:
+                c = c2
             if len(c) >= 1:
                 fn = c[0]
                 obj = self.dom.new_object(fn.get("cls", ""), e, fr)
